@@ -1076,7 +1076,7 @@ seeded("g3-store-under-type", ["C03", "C01", "C20"], "G4", [(C, '''             
 seeded("g3-store-stripped", ["C03", "C01", "C20"], "G4", [(C, '''                if add:
                     self.arguments[curarg["name"]] = avalue
                     # a repeated''', '''                if add:
-                    self.arguments[curarg["name"]] = avalue.strip() if atype == "tag" else avalue
+                    self.arguments[curarg["name"]] = avalue.lower() if atype == "tag" else avalue
                     # a repeated''')])
 seeded("t3p-reassign-drops", ["C03"], "T3'", [(C, '''        if condition:
             self.arguments["list-of-flags"] = self.arguments.pop("variable-list")
